@@ -1938,6 +1938,35 @@ PROPOSED = {
                 'delta that prints no DDL',
         'replay': 'A: module default { abstract type Tag { multi link tags -> default::Tag; }; type Card extending default::Tag; } '
                   'B: the same with `multi link tags -> default::Tag { on target delete restrict; }`'},
+    'C02-set-owned-then-parent-rename': {
+        'property': 'C02',
+        'site': 'edb/schema/delta.py::delta_objects (similarity heuristic pairs the parent\'s pointer with another name) + '
+                'edb/schema/ordering.py / referencing.py (the parent\'s RENAME propagates to the child\'s pointer although the '
+                'child took ownership of it earlier in the same script)',
+        'predicate': 'a pointer p moves from a parent type to a child type (child: `ALTER p { SET OWNED }`) in a migration in '
+                     'which the diff engine also RENAMES the parent\'s p to another pointer name (e.g. parent loses p and another '
+                     'pointer of it changes) and the parent type itself is renamed',
+        'what': 'script: `ALTER TYPE Child { ALTER PROPERTY p { SET OWNED ... } }; ALTER TYPE Parent { DROP PROPERTY q }; ... '
+                'ALTER TYPE Parent2 { ALTER PROPERTY p { RENAME TO q } }` - the rename drags the child\'s owned p along: the '
+                'committed schema has no Child.p (it is an owned Child.q); delta_schemas(result, target) = create property p, '
+                'alter q DROP OWNED',
+        'replay': 'A: module default { type Team { property rank -> int64; property idx25 -> int64; }; type Doc extending default::Team; } '
+                  'B: module default { type User { property rank -> int64 { default := (1); }; }; type Doc extending default::User '
+                  '{ property idx25 -> int64; }; }'},
+    'C10-sdl-explicit-default-residue': {
+        'property': 'C10',
+        'site': 'edb/schema/pointers.py / links.py / delta.py (a value that equals the field default but was stated explicitly, or a '
+                'field that was explicit before a pointer moved between parent and child, keeps / loses its "explicit" status '
+                'along the chain) as shown by edb/schema/ddl.py::sdl_text_from_schema',
+        'predicate': 'chain schema and directly migrated schema are equal by delta_schemas AND by the structural dump, and their SDL '
+                     'texts become identical once explicitly stated DEFAULT values (`on target delete restrict;`, '
+                     '`readonly := false;`, the `single` / `optional` qualifiers) are removed',
+        'what': 'DESCRIBE SCHEMA AS SDL of the stepwise schema differs from that of the directly migrated one only in explicitly '
+                'printed default values, e.g. chain `required single link author: File { readonly := false; };` vs direct '
+                '`required link author: File;` after moving the link from the parent to the child; or the chain lacks '
+                '`on target delete restrict;` that the target states explicitly',
+        'replay': 'S1: module default { abstract type P { multi link items -> default::P; }; }  S2: the same with '
+                  '`{ on target delete restrict; }`'},
     'C02-drop-adjacent-bases': {
         'property': 'C02',
         'site': 'edb/schema/inheriting.py::_compute_new_bases (removes from the base list while iterating over it), via '
@@ -2026,6 +2055,18 @@ def _base_lists(text):
             for m in re.finditer(r'type (\w+) extending ([\w:, ]+?)\s*[{;]', text)}
 
 
+def set_owned_then_renamed(script):
+    """the script makes a child pointer p owned and later renames a pointer called p (in the parent)"""
+    import re
+    if not script:
+        return False
+    for m in re.finditer(r'ALTER (?:PROPERTY|LINK) (\w+) \{[^}]*?SET OWNED', script, re.S | re.I):
+        p = m.group(1)
+        if re.search(r'ALTER (?:PROPERTY|LINK) ' + re.escape(p) + r' \{\s*RENAME TO', script[m.end():], re.I):
+            return True
+    return False
+
+
 def adjacent_bases_dropped(a_text, b_text):
     """some type loses two bases that were adjacent in its old base list"""
     a, b = _base_lists(a_text), _base_lists(b_text)
@@ -2076,6 +2117,9 @@ def classify_monitor(form, cmpres, mon, a_text, b_text, script):
         i = up.find('DROP OWNED')
         if i >= 0 and up.find('RESET TYPE', i) > i:
             return 'C02-move-to-parent-reowned'
+    if form in ('commit', 'text') and set_owned_then_renamed(script) \
+            and any(i[1] in ('missing-in-result', 'owned') for i in items):
+        return 'C02-set-owned-then-parent-rename'
     if form in ('commit', 'text') and items and all(f in ('bases', 'ancestors') for _, f in items) \
             and (form == 'text' or 'drop extending' in (cmpres.get('own_diff') or '').lower()) \
             and adjacent_bases_dropped(a_text, b_text):
@@ -2264,25 +2308,45 @@ def gen_chain_sweep(rnd):
     out.append(([s1, s2, s3, s4], {'family': 'reparent-two-positions', 'ops': [['sweep:reparent-two-positions']] * 4,
                                    'feat': ['inheritance:multiple', 'default:inherited'], 'len': 4}))
 
-    # (3) renamed scalars / enums used inside collection types + a structurally similar new property
-    S, E = 'Sku' + str(rnd.randrange(10, 99)), 'Col' + str(rnd.randrange(10, 99))
-    S2, E2 = S + 'r', E + 'r'
-    def coll(sn, en, extra=False):
-        ps = [f'property a -> tuple<a: {sn}, b: int64>;', f'property c -> array<{sn}>;',
-              f'property d -> tuple<{sn}, int64>;', f'property n -> tuple<x: tuple<{sn}, {en}>, y: array<{en}>>;']
-        if extra:
-            ps += [f'property e -> tuple<{sn}, int64>;', f'property f -> tuple<a: {sn}, b: int64>;',
-                   f'property g -> array<tuple<{sn}, {en}>>;']
-        return '\n'.join('        ' + p for p in ps)
-    sc = lambda sn, en: f'    scalar type {sn} extending str;\n    scalar type {en} extending enum<R, G, B>;'
-    ren_e = rnd.random() < 0.6
-    e_new = E2 if ren_e else E
-    s1 = wrap(sc(S, E) + f'\n    type T {{\n{coll(S, E)}\n    }};')
-    s2 = wrap(sc(S2, e_new) + f'\n    type T {{\n{coll(S2, e_new, True)}\n    }};')
-    s3 = wrap(sc(S2, e_new) + f'\n    type T {{\n        property e -> tuple<{S2}, int64>;\n        property g -> array<tuple<{S2}, {e_new}>>;\n    }};')
-    s4 = wrap(sc(S2, e_new) + '\n    type T;')
-    out.append(([s1, s2, s3, s4], {'family': 'scalar-in-collections-rename', 'ops': [['sweep:scalar-in-collections-rename']] * 4,
-                                   'feat': ['type:tuple', 'type:array', 'scalar:enum', 'scalar:custom'], 'len': 4}))
+    # (3) renamed scalars / enums used inside collection types.  Three chains:
+    #   named-first   : step 1 uses the scalar ONLY in a named tuple; step 2 renames the scalar AND adds a property of
+    #                   the same-shaped UNNAMED tuple (which did not exist before) - and of other collections;
+    #   unnamed-first : the mirror image;
+    #   mixed         : named, unnamed, array, nested tuple, array of tuples all present, scalar + enum renamed and
+    #                   structurally identical new properties added in the same step.
+    def sc(sn, en):
+        return f'    scalar type {sn} extending str;\n    scalar type {en} extending enum<R, G, B>;'
+
+    def typ(ps):
+        return '    type T {\n' + '\n'.join('        ' + x for x in ps) + '\n    };'
+    for variant in ('named-first', 'unnamed-first', 'mixed'):
+        S, E = 'Sku' + str(rnd.randrange(10, 99)), 'Col' + str(rnd.randrange(10, 99))
+        S2 = S + 'r'
+        E2 = E + 'r' if (variant == 'mixed' and rnd.random() < 0.6) else E
+        named = lambda sn: f'tuple<a: {sn}, b: int64>'
+        unnamed = lambda sn: f'tuple<{sn}, int64>'
+        if variant == 'named-first':
+            p1 = [f'property a -> {named(S)};']
+            p2 = [f'property a -> {named(S2)};', f'property d -> {unnamed(S2)};', f'property c -> array<{S2}>;']
+            p3 = [f'property d -> {unnamed(S2)};', f'property f -> {named(S2)};']
+        elif variant == 'unnamed-first':
+            p1 = [f'property d -> {unnamed(S)};']
+            p2 = [f'property d -> {unnamed(S2)};', f'property a -> {named(S2)};', f'property g -> array<{unnamed(S2)}>;']
+            p3 = [f'property a -> {named(S2)};', f'property e -> {unnamed(S2)};']
+        else:
+            p1 = [f'property a -> {named(S)};', f'property c -> array<{S}>;', f'property d -> {unnamed(S)};',
+                  f'property n -> tuple<x: tuple<{S}, {E}>, y: array<{E}>>;']
+            p2 = [f'property a -> {named(S2)};', f'property c -> array<{S2}>;', f'property d -> {unnamed(S2)};',
+                  f'property n -> tuple<x: tuple<{S2}, {E2}>, y: array<{E2}>>;', f'property e -> {unnamed(S2)};',
+                  f'property f -> {named(S2)};', f'property g -> array<tuple<{S2}, {E2}>>;']
+            p3 = [f'property e -> {unnamed(S2)};', f'property g -> array<tuple<{S2}, {E2}>>;']
+        s1 = wrap(sc(S, E) + '\n' + typ(p1))
+        s2 = wrap(sc(S2, E2) + '\n' + typ(p2))
+        s3 = wrap(sc(S2, E2) + '\n' + typ(p3))
+        s4 = wrap(sc(S2, E2) + '\n    type T;')
+        out.append(([s1, s2, s3, s4], {'family': 'scalar-in-collections-rename:' + variant,
+                                       'ops': [['sweep:scalar-in-collections-rename:' + variant]] * 4,
+                                       'feat': ['type:tuple', 'type:array', 'scalar:enum', 'scalar:custom'], 'len': 4}))
 
     # (4) dropping adjacent bases; rename + drop-as-base
     names = [n + str(rnd.randrange(10, 99)) for n in ('P', 'Q', 'R', 'S')]
